@@ -27,7 +27,7 @@ MANIFEST = {
             "mutated by callers after Set (aliasing not modelled). db-level limit 0 returns one element (iterator.go counts after "
             "appending): stated in the theorem, unspecified by the property.",
 }
-IMPORTS = "From LE Require Import Base.Lex Store.SMap Store.PebbleIter Store.DiffDB Store.DiffDBSpec Corr.C12."
+IMPORTS = "From LE Require Import Base.Lex Store.SMap Store.PebbleIter Store.DiffDB Store.DiffDBSpec Store.BatchDB Corr.C12."
 
 
 def kvs(l):
@@ -96,6 +96,18 @@ def scan_term(c):
                                             cbool(c["r"]), kvs(c["res"]))
 
 
+def bdb_term(c):
+    ops = []
+    for o in c["ops"]:
+        if o["o"] == "get":
+            ops.append("(BGet %s, %s)" % (cbytes(o["a"]), "RVal None" if o.get("res") is None else "RVal (Some %s)" % cbytes(o["res"])))
+        elif o["o"] == "set":
+            ops.append("(BSet %s %s, RNone)" % (cbytes(o["a"]), cbytes(o["x"])))
+        else:
+            ops.append("(BDel %s, RNone)" % cbytes(o["a"]))
+    return "(%s, %s, [%s], %s)" % (cbytes(c["root"]), kvs(c["db"]), "; ".join(ops), kvs(c["after"] or []))
+
+
 def strip_obs(c):
     """the input part of a case (what a replay needs)"""
     c = json.loads(json.dumps(c))
@@ -104,6 +116,11 @@ def strip_obs(c):
         for o in c["ops"]:
             o.pop("res", None)
         c.pop("commit", None)
+        c.pop("panic", None)
+    elif c["k"] == "bdb":
+        for o in c["ops"]:
+            o.pop("res", None)
+        c.pop("after", None)
         c.pop("panic", None)
     else:
         c.pop("res", None)
@@ -137,6 +154,29 @@ def evaluate(ck, recs):
             good.append(c)
     ro = ck.coq_eval(IMPORTS, "ops_case", "check_ops", [ops_term(c) for c in good], shard=120, tag="ops")
     rs = ck.coq_eval(IMPORTS, "scan_case", "check_scan", [scan_term(c) for c in scans], shard=400, tag="scan")
+    bdbs = [r for r in recs if r["k"] == "bdb"]
+    for c in bdbs:
+        if c.get("panic"):
+            f = dict(kind="history", key="c12:panic:batchdb", what="batchdb panicked: %s" % json.dumps(strip_obs(c)),
+                     case=strip_obs(c), theorem_or_correspondence="Corr.C12.check_bdb (no panic)", observed=c.get("panic"))
+            f["spec_violated"] = True
+            ck.failures.append(f)
+    okb = [c for c in bdbs if not c.get("panic")]
+    rb = ck.coq_eval(IMPORTS, "bdb_case", "check_bdb", [bdb_term(c) for c in okb], shard=200, tag="bdb")
+    if rb is not None:
+        for c, code in zip(okb, rb):
+            ck.count()
+            if any(o["o"] != "get" for o in c["ops"]) and any(o["o"] == "get" and o.get("res") for o in c["ops"]):
+                ck.nontrivial(("bdb", json.dumps(strip_obs(c), sort_keys=True)))
+            if code != 0:
+                spec_bad = code >= 2
+                f = dict(kind="history", key="c12:batchdb:%s" % ("spec" if spec_bad else "model"),
+                         what="batchdb: implementation %s on %s" % (
+                             "violates 'reads = database, written batch = overlay specification'" if spec_bad
+                             else "differs from the proved model", json.dumps(strip_obs(c))),
+                         case=strip_obs(c), observed=c, theorem_or_correspondence="Corr.C12.check_bdb vs batchdb.Database")
+                f["spec_violated"] = spec_bad
+                ck.failures.append(f)
     bad_ops = []
     if ro is not None:
         for c, code in zip(good, ro):
@@ -205,9 +245,9 @@ def run(ck):
         return
     corpus = os.path.join(ROOT, "corpus", "C12")
     if ck.tier == "quick":
-        args = ["-ops", "1200", "-scan", "1500", "-len", "22"]
+        args = ["-ops", "1200", "-scan", "1500", "-bdb", "300", "-len", "22"]
     else:
-        args = ["-ops", "20000", "-scan", "30000", "-len", "40"]
+        args = ["-ops", "20000", "-scan", "30000", "-bdb", "5000", "-len", "40"]
     if os.path.isdir(corpus):
         args += ["-corpus", corpus]
     recs = ck.run_harness(binp, args)
